@@ -168,14 +168,30 @@ package frame
 //@   ensures usable-after-error [C13]: result != nil ==> usable(f)
 //@   ensures keeps [C17]: f.builder == old(f.builder) && f.dblReturnCheck == old(f.dblReturnCheck)
 
+// SetAppendixData replaces the appendix. If the current buffer is too small the frame moves to a bigger pooled
+// slice (announcements grow by one signed hop record per forward, C09): any appendix within the limits can be set.
 //@ func FrameV1.SetAppendixData
-//@   requires live(f)
-//@   modifies f.data, f.data[f.appendixIndex:cap(f.data)]
-//@   ensures fits [C09,C17]: (len(appendix) <= 10000 && len(appendix) <= cap(f.data) - f.appendixIndex) ==> result == nil
-//@   ensures set [C02,C17]: result == nil ==> len(f.data) == f.appendixIndex + len(appendix) && (base(appendix) != base(f.data) ==> (forall i int :: 0 <= i && i < len(appendix) ==> f.data[f.appendixIndex+i] == appendix[i]))
-//@   ensures error-keeps [C17]: result != nil ==> len(f.data) == old(len(f.data))
-//@   ensures same-buffer: base(f.data) == old(base(f.data)) && off(f.data) == old(off(f.data)) && cap(f.data) == old(cap(f.data))
+//@   requires live(f) && (f.pooledSlice != nil ==> base(appendix) != base(f.pooledSlice)) && base(appendix) != base(f.data)
+//@   modifies f.data, f.pooledSlice, f.psDataOffset, f.data[f.appendixIndex:cap(f.data)], mem(f.pooledSlice)
+//@   ensures fits [C09,C17]: (len(appendix) <= 10000 && f.builder != nil && old(f.appendixIndex) + len(appendix) <= 65000) ==> result == nil
+//@   ensures fits-in-place [C17]: (len(appendix) <= 10000 && len(appendix) <= old(cap(f.data)) - f.appendixIndex) ==> result == nil && base(f.data) == old(base(f.data))
+//@   ensures set [C02,C09,C17]: result == nil ==> len(f.data) == f.appendixIndex + len(appendix) && (forall i int :: 0 <= i && i < len(appendix) ==> f.data[f.appendixIndex+i] == appendix[i])
+//@   ensures sealed-bytes-kept [C02,C09]: result == nil ==> (forall i int :: 0 <= i && i < f.appendixIndex ==> f.data[i] == old(f.data[i]))
+//@   ensures error-keeps [C17]: result != nil ==> len(f.data) == old(len(f.data)) && base(f.data) == old(base(f.data))
 //@   ensures sealed-part-kept [C02]: f.messageIndex == old(f.messageIndex) && f.authIndex == old(f.authIndex) && f.appendixIndex == old(f.appendixIndex)
+
+//@ func FrameV1.moveToBiggerSlice
+//@   option noinv
+//@   requires f.data != nil && layout(f.data[0:f.appendixIndex], f.messageIndex, f.authIndex, f.appendixIndex) && len(f.data) >= f.appendixIndex && dataSize >= f.appendixIndex && dataSize <= 1048576 && f.psDataOffset <= 65536
+//@   requires f.builder != nil ==> (0 <= f.builder.offset.v && f.builder.offset.v <= 100 && 0 <= f.builder.overhead.v && f.builder.overhead.v <= 100)
+//@   modifies f.data, f.pooledSlice, f.psDataOffset
+//@   ensures moved [C09]: err == nil ==> fresh(base(f.data)) && base(f.pooledSlice) == base(f.data) && cap(f.data) >= dataSize && len(f.data) == cap(f.data) && off(f.pooledSlice) == 0 && len(f.pooledSlice) == cap(f.pooledSlice) && off(f.data) == f.psDataOffset && 0 <= f.psDataOffset && f.psDataOffset <= 65536 && f.psDataOffset + cap(f.data) <= len(f.pooledSlice)
+//@   ensures content-moved [C02,C09]: err == nil ==> (forall i int :: 0 <= i && i < f.appendixIndex ==> f.data[i] == old(f.data[i]))
+//@   ensures old-slice-handed-back [C17]: err == nil ==> base(oldPooledSlice) == old(base(f.pooledSlice)) && len(oldPooledSlice) == old(len(f.pooledSlice)) && cap(oldPooledSlice) == old(cap(f.pooledSlice)) && off(oldPooledSlice) == old(off(f.pooledSlice))
+//@   ensures succeeds-within-limits [C09]: f.builder != nil && old(f.psDataOffset) >= 0 && old(f.psDataOffset) + dataSize + 100 <= 65675 ==> err == nil
+//@   ensures has-builder: err == nil ==> f.builder != nil
+//@   ensures layout-bytes-moved [C02,C09]: err == nil ==> f.data[4] == old(f.data[4]) && f.data[48] == old(f.data[48]) && f.data[f.messageIndex] == old(f.data[f.messageIndex]) && f.data[f.messageIndex+1] == old(f.data[f.messageIndex+1])
+//@   ensures error-keeps [C17]: err != nil ==> base(f.data) == old(base(f.data)) && len(f.data) == old(len(f.data)) && off(f.data) == old(off(f.data)) && cap(f.data) == old(cap(f.data)) && f.psDataOffset == old(f.psDataOffset) && base(f.pooledSlice) == old(base(f.pooledSlice))
 
 // ---- sealing -----------------------------------------------------------------------------------
 // The small helpers are inlined so that the exact byte ranges handed to the primitives are checked in
